@@ -65,6 +65,11 @@ def atoms():
         # a high surrogate directly followed by a low one: still two unencodable code
         # points in a Python str (JSON text would fuse them into one character)
         "\ud83d\ude00",
+        # complex numbers that differ only in the sign of a zero part while the other
+        # part is not zero
+        complex(1.0, -0.0),
+        complex(1.0, 0.0),
+        complex(-0.0, 1.0),
     ]
     return a
 
